@@ -12,8 +12,14 @@ fn g12v1(r: &mut Rng) -> Vec<u8> {
     let mut v = vec![*r.pick(&[0x01u8, 0x03, 0x04, 0x41, 0x81, 0x00, 0x10, 0x23]), r.range(0, 3) as u8];
     v.extend_from_slice(&(r.range(0, 5000) as u32).to_le_bytes());
     v.extend_from_slice(&(r.range(0, 5000) as u32).to_le_bytes());
-    v.push(0);
+    v.push(req_status(r));
     v
+}
+
+/// the status field of a REQUEST object is a public field: mostly SUCCESS, sometimes (1/12) anything else, so
+/// that a reply echoing exactly that status is generated too (S67: it is still not a success)
+fn req_status(r: &mut Rng) -> u8 {
+    if r.chance(1, 12) { *r.pick(&[1u8, 2, 3, 4, 5, 6, 7, 8, 9, 10, 126, 127]) } else { 0 }
 }
 
 fn g41(r: &mut Rng, var: u8) -> Vec<u8> {
@@ -23,7 +29,7 @@ fn g41(r: &mut Rng, var: u8) -> Vec<u8> {
         3 => ((r.range(1, 2000) as f32) * 0.5 + 0.25).to_le_bytes().to_vec(),
         _ => ((r.range(1, 2000) as f64) * 0.25 + 0.125).to_le_bytes().to_vec(),
     };
-    v.push(0);
+    v.push(req_status(r));
     v
 }
 
